@@ -24,7 +24,8 @@ Inductive result (X : Type) := Ok (x : X) | Err (e : exn).
 Arguments Ok {X} x.
 Arguments Err {X} e.
 
-(* what a helper hands back: a bare element value, a Python list of them, or None (fall-through) *)
+(* what a helper hands back: a bare element value or a Python list of them.  PNone (a None result) is kept in the type so
+   that [to_list] stays partial, but no modelled helper returns it any more (see C09_op2_never_none). *)
 Inductive pyval (C : Type) := Bare (c : C) | PList (l : list C) | PNone.
 Arguments Bare {C} c.
 Arguments PList {C} l.
@@ -80,8 +81,8 @@ Section Broadcast.
   (* SMPose._op2(left, right, op).  The right operand is classified by the caller-visible tests
        isinstance(right, left.__class__)                         -> SameClass r
        isscalar(right) or ndarray of the pose's shape            -> Scalar-like (modelled by [Scalar])
-       anything else                                             -> falls off the end: returns None
-     (the None outcome belongs to property C08; it is modelled so that the function is total for the right reason) *)
+       anything else                                             -> raise ValueError('bad operands')
+     (since fix 5b6b922; before it the function fell off the end of its if/elif chain and returned None) *)
   Inductive rhs2 := SameClass (r : list B) | ScalarLike (s : B) | Foreign.
 
   Definition op2 (left : list A) (right : rhs2) : result (pyval C) :=
@@ -104,7 +105,7 @@ Section Broadcast.
         | [a] => Ok (Bare (op a s))
         | _ => Ok (PList (map (fun x => op x s) left))
         end
-    | Foreign => Ok PNone
+    | Foreign => Err ValueError
     end.
 End Broadcast.
 
